@@ -125,7 +125,7 @@ func runCase(run *evid.Run, sp spec) (res result) {
 			cnt("origin_is_disagrees_with_construction")
 		}
 	}
-	b := &backend{fail: st.fail, err: e0}
+	b := &backend{fail: st.fail, err: e0, sourCloses: sp.Case%2 == 1}
 	pageSize := 0
 	if strings.HasSuffix(st.fail, ".page2") {
 		pageSize = 2
